@@ -160,8 +160,9 @@ def construct_family(pairs=False, limit=None, rng=None):
     return out
 
 
-def big_programs():
-    """programs whose images are larger than the 8 KiB reader/writer buffers (strings lying across buffer boundaries)"""
+def big_programs(huge_pool=False):
+    """programs whose images are larger than the 8 KiB reader/writer buffers (strings lying across buffer boundaries);
+    huge_pool: also one whose constant pool needs indices above 32767 (16-bit, unsigned)"""
     P = [('big:300-prints', '; '.join('print("line %d of a program whose image is larger than the reader buffers: ~\\n", %d)' % (i, i) for i in range(300))),
          ('big:long-strings', '; '.join('print("%s\\n")' % (chr(97 + i % 26) * (3000 + 37 * i)) for i in range(8))),
          ('big:many-functions', '; '.join('function f%d(a, b) -> begin let t = a * %d + b; if t > 3 then print("f%d ~\\n", t) else t end' % (i, i, i) for i in range(150)) + '; ' + '; '.join('f%d(%d, 1)' % (i, i) for i in range(150))),
